@@ -14,6 +14,11 @@ From Pegen Require Import Base.StrUtil Base.Values Runtime.Tokenizer Sem.Peg Gen
 Import ListNotations.
 Open Scope string_scope.
 
+(* hypotheses of the interpreter-level theorem on a method, as a decidable predicate: a method one of whose alternatives
+   asks for LOCATIONS captures the start position at its entry and is not a loop helper *)
+Definition meth_loc_ok (m : meth) : bool :=
+  if existsb a_locations (m_alts m) then m_locations m && negb (m_loop m) else true.
+
 Section Range.
 Variable C : tokconsts.
 
